@@ -356,8 +356,9 @@ Definition apply_event (e : fevent) (s : fstate) : fstate :=
   | ESub g f => fed_op s (OSub NODE_A (plain_sub g f))
   | EUnsub t => fed_op s (OUnsub NODE_A t)
   | EMsg m =>
-      (* publisher.Publish(eventToMessage(msg)); retained -> AddOrReplace (also with an empty payload) *)
-      let ret' := if m_retained m then rdb_step (fb_ret s) (RAdd m) else fb_ret s in
+      (* publisher.Publish(eventToMessage(msg)); retained -> as for a local PUBLISH: an empty
+         payload removes the retained message of the topic, otherwise AddOrReplace *)
+      let ret' := if m_retained m then rdb_step (fb_ret s) (retain_op m) else fb_ret s in
       set_server (fb_peer s) (fb_sess s) (fb_fed s) ret' (fb_ops s) (applied s) (published s ++ [m]) s
   end.
 
